@@ -102,6 +102,13 @@ def stamp (kind : Kind) (s : K) : Cpt K → Stamp K
   | .SP n1 n2 n3 n4 m c1 c2 c4 =>
       { lhs := [(node n3, br m, 1), (br m, node n3, 1), (br m, node n1, -c1), (br m, node n2, -c2), (br m, node n4, -c4)] }
 
+/-- the extra row by which `CCVS._stamp` defines the current through an admittance-type controlling component,
+    `D[mc,mc] += 1, C[mc,n3] -= Y, C[mc,n4] += Y, Es[mc] -= Isc`.  EVERY CCVS that names the component stamps it
+    (`+=`), so with several of them the row is a multiple of itself: the solutions do not change
+    (`Props/C01.lean: dup_row_same_solutions`) but the assembled matrix does. -/
+def ctrlRow (n3 n4 mc : Nat) (y isc : K) : Stamp K :=
+  { lhs := [(br mc, br mc, 1), (br mc, node n3, -y), (br mc, node n4, y)], rhs := [(br mc, -isc)] }
+
 def stampAll (kind : Kind) (s : K) (cs : List (Cpt K)) : Stamp K :=
   cs.foldr (fun c acc => (stamp kind s c).append acc) {}
 
@@ -141,6 +148,43 @@ def owned : Cpt K → List Nat
   | .HY _ _ m _ _ mc _ _ _ => [m, mc]
   | _ => []
 
+/-- impedance and initial-voltage term that `MNA._solve` uses to reconstruct the current of a component that has
+    no unknown branch current: `I = (V1 − V2 − elt.V0) / elt.Z` for types R, NR, C, Y, Z.  `none`: infinite impedance
+    (a capacitor at dc, `Z = zoo`, for which Lcapy reports 0). -/
+def solveZV0 (kind : Kind) (s : K) : Cpt K → Option (Option K × K)
+  | .R _ _ r => some (some r, 0)
+  | .Y _ _ y => some (some (1 / y), 0)
+  | .Cap _ _ c v0 =>
+      match kind with
+      | .dc => some (none, 0)
+      | .time => some (none, 0)
+      | .lap => some (some (1 / (s * c)), 0)
+      | .ivp => some (some (1 / (s * c)), match v0 with | some v0 => v0 / s | none => 0)   -- C.V0 = v0/s
+  | _ => none
+
+/-- the current `MNA._solve` stores in `_Idict` for each component (passive sign convention: `current_sign` is the
+    identity): the solved unknown for components that own a branch current, the reconstruction formula for R/C/Y,
+    `−Isc` for a current source; `none`: no entry (`G`, `F`, `O`, two-port and summing blocks without a branch …) -/
+def reportedCurrent (kind : Kind) (s : K) (x : Ix → K) (c : Cpt K) : Option K :=
+  match c with
+  | .Ind _ _ m _ _ _ => some (x (br m))
+  | .V _ _ m _ => some (x (br m))
+  | .E _ _ _ _ m _ _ => some (x (br m))
+  | .H _ _ m _ _ => some (x (br m))
+  | .HY _ _ m _ _ _ _ _ _ => some (x (br m))
+  | .AM _ _ m => some (x (br m))
+  | .TF _ _ _ _ m _ => some (x (br m))
+  | .GY _ _ _ _ _ m2 _ => some (x (br m2))
+  | .TR _ _ m _ => some (x (br m))
+  | .TPA _ _ _ _ m _ _ _ _ => some (x (br m))
+  | .SP _ _ _ _ m _ _ _ => some (x (br m))
+  | .I _ _ i => some (-i)
+  | .R n1 n2 _ | .Y n1 n2 _ | .Cap n1 n2 _ _ =>
+      match solveZV0 kind s c with
+      | some (some z, v0) => some ((volt x n1 - volt x n2 - v0) / z)
+      | some (none, _) => some 0
+      | none => none
+  | _ => none
 /-- entry (r, c) of the assembled matrix, and entry r of the right-hand side (diagnostics) -/
 def entryA (st : Stamp K) (r c : Ix) : K :=
   st.lhs.foldr (fun e acc => (if e.1 = r ∧ e.2.1 = c then e.2.2 else 0) + acc) 0
